@@ -568,6 +568,8 @@ impl Store {
         self.verif.point("append.enter", None);
         // Assign the id, commit and broadcast under one lock: with concurrent appenders, frames
         // must become visible (to readers and to subscribers) in increasing id order.
+        #[cfg(feature = "verif")]
+        self.verif.point_lock("append.lock", &self.append_lock);
         let _append_guard = self.append_lock.lock().unwrap();
         frame.id = scru128::new();
         #[cfg(feature = "verif")]
